@@ -196,7 +196,7 @@ func (op *Element[T]) Copy(opCopy *Element[T]) {
 			op0 := any(op.Value).(structs.Vector[ring.Poly])
 			op1 := any(opCopy.Value).(structs.Vector[ring.Poly])
 
-			for i := range opCopy.Value {
+			for i := 0; i < len(op0) && i < len(op1); i++ {
 				op0[i].Copy(op1[i])
 			}
 
@@ -205,7 +205,7 @@ func (op *Element[T]) Copy(opCopy *Element[T]) {
 			op0 := any(op.Value).(structs.Vector[ringqp.Poly])
 			op1 := any(opCopy.Value).(structs.Vector[ringqp.Poly])
 
-			for i := range opCopy.Value {
+			for i := 0; i < len(op0) && i < len(op1); i++ {
 				op0[i].Copy(op1[i])
 			}
 		}
